@@ -87,6 +87,10 @@ def project(v):
     if '_yatiml_extra' in names:
         for k, x in v._yatiml_extra.items():
             out[k] = project(x)
+    if isinstance(v, values.Span):
+        out['start'] += 1           # Span._yatiml_sweeten, once
+    if isinstance(v, values.DeepSpan):
+        out['name'] += '+'          # DeepSpan._yatiml_sweeten, once
     if type(v) is values.Opt:
         for k, d in _OPT_DEFAULTS.items():
             if k in out and _same(out[k], d):
